@@ -38,6 +38,46 @@ theorem fixed_roundtrip (v k : Nat) (hv : v < 256 ^ k) (tail : Bytes) :
   rw [List.take_left' hlen, List.drop_left' hlen, ofLE_leBytes, Nat.mod_eq_of_lt hv]
   exact ⟨rfl, rfl⟩
 
+theorem crcBytes_length (crcs : List Nat) : (crcBytes crcs).length = 4 * crcs.length := by
+  induction crcs with
+  | nil => rfl
+  | cons c cs ih =>
+    simp only [crcBytes, List.flatMap_cons, List.length_append, List.length_cons] at ih ⊢
+    rw [leBytes_length, ih]; omega
+
+theorem crcs_go (crcs : List Nat) (hv : ∀ c ∈ crcs, c < 2 ^ 32) :
+    pCrcs.go crcs.length (crcBytes crcs) = crcs := by
+  induction crcs with
+  | nil => rfl
+  | cons c cs ih =>
+    have hc : c < 256 ^ 4 := by have := hv c (by simp); omega
+    have e : crcBytes (c :: cs) = leBytes c 4 ++ crcBytes cs := by simp [crcBytes]
+    rw [e, List.length_cons, pCrcs.go]
+    obtain ⟨h1, h2⟩ := fixed_roundtrip c 4 hc (crcBytes cs)
+    rw [h1, h2, ih (fun d hd => hv d (by simp [hd]))]
+
+/-- CRC lists of any length: `read_crcs(count)` given what `write_crcs` emitted returns exactly
+    the written 32-bit values and leaves the cursor right behind them -/
+theorem crcs_roundtrip (crcs : List Nat) (hv : ∀ c ∈ crcs, c < 2 ^ 32) (tail : Bytes) :
+    pCrcs crcs.length (crcBytes crcs ++ tail) = .ok (crcs, tail) := by
+  have hl := crcBytes_length crcs
+  unfold pCrcs
+  simp only [List.take_left' hl, List.drop_left' hl, hl, Nat.lt_irrefl, if_false]
+  rw [crcs_go crcs hv]
+
+/-- … and a list cut short is refused, never read as fewer or other CRCs -/
+theorem crcs_short_refused (count : Nat) (bs : Bytes) (h : bs.length < 4 * count) :
+    pCrcs count bs = .error .malformed := by
+  unfold pCrcs
+  have : (bs.take (4 * count)).length < 4 * count := by rw [List.length_take]; omega
+  simp only [this, if_true]
+
+/- non-vacuity: extreme values meet the hypothesis, and the bytes are the expected ones -/
+example : crcBytes [0xFFFFFFFF, 0x01020304] = [255, 255, 255, 255, 4, 3, 2, 1] ∧
+    (∀ c ∈ [0xFFFFFFFF, 0x01020304], c < 2 ^ 32) := by decide
+example : pCrcs 2 (crcBytes [0xFFFFFFFF, 0x01020304] ++ [9]) = .ok ([0xFFFFFFFF, 0x01020304], [9]) :=
+  crcs_roundtrip [0xFFFFFFFF, 0x01020304] (by decide) [9]
+
 /-- boolean vectors of every length, with and without the all-defined shortcut -/
 theorem bools_roundtrip (bs : List Bool) (allDefined : Bool) (tail : Bytes) :
     readBools bs.length allDefined (writeBools bs allDefined ++ tail) = some (bs, tail) :=
